@@ -11,7 +11,7 @@
 From Coq Require Import QArith Qround Qabs List Bool Arith ZArith Lia.
 Import ListNotations.
 From PV Require Import Lib.WLS BSpline.Eval BSpline.Fit BSpline.Iter.
-From PV Require Import Generated.Combine1fiber.   (* only c1f_bad: the bad-region test as the source has it *)
+From PV Require Import Generated.Combine1fiber.   (* only c1f_bad (the bad-region test as the source has it) and c1f_damp2_floor *)
 Open Scope Q_scope.
 
 Definition EPS : Q := 1 # 8388608.      (* np.finfo(np.float32).eps = 2^-23 *)
@@ -185,6 +185,8 @@ Definition aesthetics_model (meth : amethod) (flux iv : list Q) : list Q :=
 (* ---- aesthetics(method='damp'): djs_maskinterp(const=True), then the WHOLE spectrum is multiplied by the tapers
      0.5*(1+erf((pixels-mingood)/damp1))  if mingood > 0,          damp1 = min(mingood, 250)
      0.5*(1+erf((maxgood-pixels)/damp2))  if maxgood < nflux-1,    damp2 = min(maxgood, 250)   [sic]
+   (round 6: damp2 = 0.0 when only pixel 0 is good -- NaN in the code; fixes/C11-damp-only-first-pixel-good.diff makes it
+    max(min(maxgood, 250), 1); the floor is read from the source: c1f_damp2_floor = 0 without the max())
    erf is not rational: the half-error-function  erfh x = 0.5*(1+erf x)  is a PARAMETER (a Section variable with the
    hypothesis 0 <= erfh x <= 1 in the theorems; a finite table of scipy values in the correspondence run). *)
 Definition damp_len : nat := 250.
@@ -199,7 +201,7 @@ Definition aesthetics_damp (erfh : Q -> Q) (flux iv : list Q) : list Q :=
     let t1 := fun i : nat => if (0 <? mingood)%nat
                              then erfh ((qnat i - qnat mingood) / qnat (Nat.min mingood damp_len)) else 1 in
     let t2 := fun i : nat => if (maxgood <? n - 1)%nat
-                             then erfh ((qnat maxgood - qnat i) / qnat (Nat.min maxgood damp_len)) else 1 in
+                             then erfh ((qnat maxgood - qnat i) / qnat (Nat.max (Nat.min maxgood damp_len) c1f_damp2_floor)) else 1 in
     map (fun t : nat * Q => snd t * t1 (fst t) * t2 (fst t)) (combine (seq 0 n) (maskinterp_idx flux bad))
   else flux.
 (* the taper as a finite table (exact rational argument -> value); 0 for an argument that is not listed *)
